@@ -54,6 +54,30 @@ def _oracle_tz(case) -> Info:
 case_st = st.tuples(C.aidon_list_st(), st.none() | st.tuples(C.dt_spec_st(), st.booleans()), st.sampled_from(PRELUDES)).map(lambda t: (t[0][0], t[0][1], t[1], t[2]))
 
 
+def interleave_oracle(case) -> Info:
+    """Two decodes of different lists on two threads, the first paused at its k-th line inside han/ while the second runs to
+    completion (the harness owns the schedule): both results must be what each list says."""
+    from vlib import interleave
+
+    m_a, m_b, frac = case
+    _build = lambda m: C.aidon_body([tuple(e) for e in m[1]])[:2]
+    body_a, exp_a = _build(m_a)
+    body_b, exp_b = _build(m_b)
+    total = interleave.count_han_lines(lambda: aidon.decode_notification_body(body_a))
+    k = max(1, int(total * frac / 1000))
+    res_a, res_b, reached = interleave.run_interleaved(lambda: aidon.decode_notification_body(body_a), lambda: aidon.decode_notification_body(body_b), k)
+    for who, res, exp_, body_ in (("paused", res_a, exp_a, body_a), ("interleaving", res_b, exp_b, body_b)):
+        if isinstance(res, BaseException):
+            fail(f"{who} decode raised {type(res).__name__}: {res} (other decode ran while the first was paused at han line event {k} of {total})", sig="interleaved-raise")
+        mm = C.dict_mismatch(res, exp_)
+        if mm:
+            fail(f"{who} decode, other decode run while the first was paused at han line event {k} of {total}: {mm}; body {body_.hex()[:200]}", sig="interleaved-threads")
+    return Info(nontrivial=reached, classes=("paused-mid-decode" if reached else "finished-before-pause",))
+
+
+interleave_st = st.tuples(C.aidon_list_st(), C.aidon_list_st(), st.integers(1, 999))
+
+
 def build() -> Check:
     return Check(
         pid="C07",
@@ -70,5 +94,5 @@ def build() -> Check:
         ),
         assumptions=[
             "Every payload is decoded twice; the caller modifies the first returned dictionary before the second call (results must not be shared objects).","Field names from vlib/names.py; expected values computed with fractions.Fraction; scaler exponents kept within -6..6 so the scaled value is exactly representable in Decimal and the correctly rounded double is well defined."],
-        clauses=[HypClause("lists", case_st, oracle, quick=6000, thorough=300000)],
+        clauses=[HypClause("thread-interleavings", interleave_st, interleave_oracle, quick=250, thorough=6000, doc="decode A paused at a drawn line inside han/ while decode B runs on another thread"), HypClause("lists", case_st, oracle, quick=6000, thorough=300000)],
     )
